@@ -139,7 +139,8 @@ _seq("C16", "FileSystemDataStore behaves like its specification",
 _seq("C19", "corruption fails cleanly",
      "exhaustive single-byte, window, truncation, extension and splice mutations plus CRC-consistent framing-field grids of engine-written files (with and without row data hashes), each read through every helper and queried in two flows, in child processes with an address-space limit",
      "content oracles are off for files without row data hashes (corruption is then undetectable by design) except the framing oracle: row data that is not a sequence of whole length-prefixed rows must be reported by the scanner and by the match-all query; UncompressedSize left valid",
-     "exhaustive mutation enumeration with process isolation", level="fault_enumeration", budget={"quick": 120, "thorough": 1500})
+     "exhaustive mutation enumeration with process isolation, plus controlled-scheduler exploration of read failures on multi-read filter passes (pool shim: nothing is released twice; follow-up query exact)", level="fault_enumeration",
+     extra_parts=[{"engine": "sched", "family": "C19"}], budget={"quick": 200, "thorough": 1500})
 _seq("C27", "silent by default",
      "all single-fault flush and merge runs, corrupt-file queries, absent-filter files, Stop deadlines against wedged stores and a plain lifecycle run in child processes whose descriptors 1 and 2 are regular files that must stay empty",
      "Logger nil; the harness itself writes nothing in the child",
